@@ -48,7 +48,46 @@ fn gen_order_program(ch: &mut Ch) -> String {
 }
 
 fn gen_multi_error_program(ch: &mut Ch) -> String {
-    match ch.pick(6) {
+    match ch.pick(7) {
+        6 => {
+            // Faults whose diagnostics may look at everything that is in scope: several bound
+            // names one edit apart from each other, and unbound / re-bound / ill-typed mentions of
+            // names that are equally close to several of them.
+            let stem = ["x", "val", "é", "item_", "n0"][ch.pick(5)];
+            let k = 2 + ch.pick(5);
+            let suffixes = ["1", "2", "3", "a", "b", "é", "_", "0", "z"];
+            let first = ch.pick(suffixes.len());
+            let names: Vec<String> = (0..k).map(|i| format!("{stem}{}", suffixes[(first + i) % suffixes.len()])).collect();
+            let via_lambda = ch.chance(1, 3);
+            let mut s = String::new();
+            for (i, n) in names.iter().enumerate() {
+                if via_lambda {
+                    s.push_str(&format!("({n} : int) => "));
+                } else {
+                    s.push_str(&format!("{n} = {i}{}", if ch.chance(1, 2) { "; " } else { "\n" }));
+                }
+            }
+            let mut uses = vec![];
+            for _ in 0..1 + ch.pick(3) {
+                // An unbound name at the same distance from several bound ones: another suffix,
+                // the bare stem, a doubled suffix.
+                uses.push(match ch.pick(4) {
+                    0 => format!("{stem}{}", suffixes[(first + k + ch.pick(3)) % suffixes.len()]),
+                    1 => stem.to_owned(),
+                    2 => format!("{stem}{}", ["q", "Q", "7", "ü"][ch.pick(4)]),
+                    _ => format!("{}{}", names[ch.pick(k)], ["1", "a", "_"][ch.pick(3)]),
+                });
+            }
+            if ch.chance(1, 3) {
+                uses.push(format!("({} = 1; 2)", names[ch.pick(k)]));
+            }
+            if ch.chance(1, 3) {
+                uses.push(format!("(if {} then 1 else 2)", names[ch.pick(k)]));
+            }
+            s.push_str(&uses.join(" + "));
+            s.push('\n');
+            s
+        }
         5 => {
             // One group that re-binds several names already in scope (parameters, or earlier
             // definitions of an enclosing group, or definitions of the same group).
@@ -277,7 +316,7 @@ pub fn def(tier: Tier) -> CheckDef {
     CheckDef {
         id: "C13",
         level: "exploration",
-        rule: "proptest-generated files: programs whose first definition mentions 2-6 later non-value definitions, directly or through one or two functions defined after it (1-3 such groups), several unbound names / re-bindings, 2-6 independent type errors, several unexpected symbols, mixtures, random ill-typed programs, accepted programs, syntax near-misses, invalid UTF-8 and the empty file; each file is run 6 (quick) / 12 (thorough) times per sub-command (`check`, `run`) as separate processes (fresh hash seeds) and (exit status, stdout, stderr) must be byte-identical; in-process companion: parse() called 10 times on the same tokens must return the same diagnostics in the same order; non-trivial = the output has >= 2 diagnostics; distinct by file content",
+        rule: "proptest-generated files: programs whose first definition mentions 2-6 later non-value definitions, directly or through one or two functions defined after it (1-3 such groups), several unbound names / re-bindings, 2-6 independent type errors, several unexpected symbols, unbound / re-bound / ill-typed mentions of names that are one edit away from several bound names (diagnostics that may look at everything in scope), mixtures, random ill-typed programs, accepted programs, syntax near-misses, invalid UTF-8 and the empty file; each file is run 6 (quick) / 12 (thorough) times per sub-command (`check`, `run`) as separate processes (fresh hash seeds) and (exit status, stdout, stderr) must be byte-identical; in-process companion: parse() called 10 times on the same tokens must return the same diagnostics in the same order; non-trivial = the output has >= 2 diagnostics; distinct by file content",
         assumptions: vec![
             "a permutation of k diagnostics escapes one file with probability at most (1/k!)^(launches-1); hundreds of such files are generated per run",
         ],
